@@ -30,6 +30,38 @@ type KnownFinding struct {
 }
 
 var verifRoot = "/verif"
+var outRoot = ""
+
+type overlayFlag []string
+
+func (o *overlayFlag) String() string     { return strings.Join(*o, ",") }
+func (o *overlayFlag) Set(v string) error { *o = append(*o, v); return nil }
+func (o *overlayFlag) m() map[string][]byte {
+	if len(*o) == 0 {
+		return nil
+	}
+	m := map[string][]byte{}
+	for _, kv := range *o {
+		i := strings.Index(kv, "=")
+		if i < 0 {
+			continue
+		}
+		b, err := os.ReadFile(kv[i+1:])
+		if err != nil {
+			fmt.Fprintln(os.Stderr, "overlay:", err)
+			os.Exit(2)
+		}
+		m[kv[:i]] = b
+	}
+	return m
+}
+
+func outDir() string {
+	if outRoot != "" {
+		return outRoot
+	}
+	return verifRoot
+}
 var repoGo = "/repo/go"
 
 func main() {
@@ -82,6 +114,8 @@ func cmdFn(args []string) int {
 	fs := flag.NewFlagSet("fn", flag.ExitOnError)
 	timeout := fs.Int("timeout", 10, "solver timeout (s)")
 	keep := fs.String("keep", "", "directory to keep SMT files")
+	var ov overlayFlag
+	fs.Var(&ov, "overlay", "file=replacement (repeatable): verify with the file's contents replaced")
 	verbose := fs.Bool("v", false, "verbose")
 	_ = fs.Parse(args)
 	rest := fs.Args()
@@ -89,7 +123,7 @@ func cmdFn(args []string) int {
 		fmt.Fprintln(os.Stderr, "usage: govc fn [flags] <pkg-pattern>[,<pkg>...] <func-key-substring>...")
 		return 2
 	}
-	w, err := loadWorld(repoGo, strings.Split(rest[0], ","), nil)
+	w, err := loadWorld(repoGo, strings.Split(rest[0], ","), ov.m())
 	if err != nil {
 		fmt.Fprintln(os.Stderr, "load:", err)
 		return 2
@@ -179,7 +213,13 @@ func cmdCheck(args []string) int {
 	prop := args[0]
 	fs := flag.NewFlagSet("check", flag.ExitOnError)
 	tier := fs.String("tier", "quick", "quick|thorough")
+	var ov overlayFlag
+	fs.Var(&ov, "overlay", "file=replacement (repeatable): verify with the file's contents replaced (selftest only)")
+	evDir := fs.String("evidence-dir", "", "write evidence/replays below this directory instead of /verif (selftest only)")
 	_ = fs.Parse(args[1:])
+	if *evDir != "" {
+		outRoot = *evDir
+	}
 	if v := os.Getenv("VERIF_TIER"); v != "" && *tier == "" {
 		*tier = v
 	}
@@ -198,7 +238,7 @@ func cmdCheck(args []string) int {
 		fmt.Fprintln(os.Stderr, "unknown property", prop)
 		return 2
 	}
-	w, err := loadWorld(repoGo, cfg.Packages, nil)
+	w, err := loadWorld(repoGo, cfg.Packages, ov.m())
 	if err != nil {
 		fmt.Fprintln(os.Stderr, "CHECK BROKEN (load / stale contract):", err)
 		return 2
@@ -240,7 +280,7 @@ func cmdCheck(args []string) int {
 	}
 	st := discharge(all, scratch, timeout, *tier == "thorough")
 	known := loadKnown()
-	replayDir := filepath.Join(verifRoot, "replays", prop)
+	replayDir := filepath.Join(outDir(), "replays", prop)
 	_ = os.RemoveAll(replayDir)
 	violations := 0
 	broken := 0
@@ -368,9 +408,9 @@ func cmdCheck(args []string) int {
 		"wall_s":      time.Since(start).Seconds(),
 		"violations":  violations,
 	}
-	_ = os.MkdirAll(filepath.Join(verifRoot, "evidence"), 0o755)
+	_ = os.MkdirAll(filepath.Join(outDir(), "evidence"), 0o755)
 	b, _ := json.MarshalIndent(ev, "", " ")
-	_ = os.WriteFile(filepath.Join(verifRoot, "evidence", prop+".json"), b, 0o644)
+	_ = os.WriteFile(filepath.Join(outDir(), "evidence", prop+".json"), b, 0o644)
 	fmt.Printf("%s: %d functions, %d obligations, %d discharged, %d violations, %.1fs\n", prop, len(results), nObl, nDis, violations, time.Since(start).Seconds())
 	if broken > 0 {
 		return 2
